@@ -521,6 +521,7 @@ template <class Key, class Value, class... Policies>
 bool vyukov_hash_map<Key, Value, Policies...>::try_get_value(const key_type& key, accessor& result) const {
   const hash_t h = hash{}(key);
 
+restart:
   // (22) - this acquire-load synchronizes-with the release-store (31)
   guarded_block b = acquire_guard(data_block, std::memory_order_acquire);
   const std::size_t bucket_idx = h & b->mask;
@@ -549,6 +550,12 @@ retry:
         // a deletion has occured in the meantime -> we have to retry
         state = state2;
         goto retry;
+      }
+
+      // A concurrent grow() does not touch the version of the old buckets, so once data_block has been
+      // replaced the item can be erased via the new block and its value retired before we acquired it.
+      if (data_block.load(std::memory_order_acquire).get() != b.get()) {
+        goto restart;
       }
 
       const auto delete_marker = i + 1;
@@ -589,6 +596,11 @@ retry:
         // a deletion has occured in the meantime -> we have to retry
         state = state2;
         goto retry;
+      }
+
+      // see above - the value is only safe to use if data_block has not been replaced in the meantime
+      if (data_block.load(std::memory_order_acquire).get() != b.get()) {
+        goto restart;
       }
 
       if (traits::compare_nontrivial_key(acc, key)) {
